@@ -148,12 +148,18 @@ def build_call(method, a):
     if method == "bind":
         return (a["dn"], build_auth(a["auth"])), dict(controls=build_controls(a.get("controls")))
     if method == "extended_request":
-        return (a["name"],), dict(value=_bx(a.get("value")), controls=build_controls(a.get("controls")))
+        name = a["name"]
+        if a.get("name_enum"):
+            try:
+                name = sansldap.ExtendedOperations(name)
+            except ValueError:
+                pass
+        return (name,), dict(value=_bx(a.get("value")), controls=build_controls(a.get("controls")))
     if method == "search_request":
         return (), dict(
             base_object=a.get("base"),
-            scope=a.get("scope", 2),
-            dereferencing_policy=a.get("deref", 0),
+            scope=sansldap.SearchScope(a.get("scope", 2)) if a.get("enums") else a.get("scope", 2),
+            dereferencing_policy=sansldap.DereferencingPolicy(a.get("deref", 0)) if a.get("enums") else a.get("deref", 0),
             size_limit=a.get("size_limit", 0),
             time_limit=a.get("time_limit", 0),
             types_only=a.get("types_only", False),
@@ -172,8 +178,14 @@ def build_call(method, a):
             controls=build_controls(a.get("controls")),
         )
     if method == "extended_response":
+        name = a.get("name")
+        if a.get("name_enum") and name is not None:
+            try:
+                name = sansldap.ExtendedOperations(name)  # the enum member instead of the plain OID string
+            except ValueError:
+                pass
         return (a["id"],), dict(
-            name=a.get("name"),
+            name=name,
             value=_bx(a.get("value")),
             result_code=build_code(a.get("code", 0)),
             matched_dn=a.get("matched_dn"),
@@ -539,7 +551,8 @@ class Gen:
         return "bind_simple", self.a_bind_simple()
 
     def a_extended_request(self):
-        return {"name": self.r.choice(EXT_OIDS), "value": self.opt_blob(0.4), "controls": self.controls()}
+        return {"name": self.r.choice(EXT_OIDS), "value": self.opt_blob(0.4), "controls": self.controls(),
+                "name_enum": self.r.random() < 0.3}
 
     def a_search_request(self):
         r = self.r
@@ -547,7 +560,7 @@ class Gen:
              "time_limit": self.int_(), "types_only": r.random() < 0.3,
              "filter": None if r.random() < 0.2 else self.filter(),
              "attributes": None if r.random() < 0.3 else [r.choice(ATTRS + ["*", "1.1", "+"]) for _ in range(r.choice([0, 1, 2, 5]))],
-             "controls": self.controls()}
+             "controls": self.controls(), "enums": r.random() < 0.4}
         return a
 
     def a_result(self, mid, code=None):
@@ -565,6 +578,7 @@ class Gen:
             name = self.r.choice([None, None] + EXT_OIDS)
         a["name"] = name
         a["value"] = self.opt_blob(0.5)
+        a["name_enum"] = self.r.random() < 0.4
         return a
 
     def a_entry(self, mid):
